@@ -19,13 +19,24 @@ LEVEL = 'proof'
 Q = 'pytezos.rpc.node.RpcMultiNode'
 
 
+# what a node request can end with besides a response: the node's error, and the failures of the HTTP layer below it (requests raises these;
+# ancestry from requests/exceptions.py: ConnectionError and Timeout derive from RequestException, which derives from IOError = OSError)
+FAILURES = ['pytezos.rpc.node.RpcError', 'requests.exceptions.ConnectionError', 'requests.exceptions.ReadTimeout']
+_REQ_BASES = ['requests.exceptions.RequestException', 'requests.RequestException', 'IOError', 'OSError', 'EnvironmentError', 'Exception', 'BaseException']
+EXC_BASES = {
+    'requests.exceptions.ConnectionError': ['requests.exceptions.ConnectionError', 'requests.ConnectionError'] + _REQ_BASES,
+    'requests.exceptions.ReadTimeout': ['requests.exceptions.ReadTimeout', 'requests.ReadTimeout', 'requests.exceptions.Timeout', 'requests.Timeout'] + _REQ_BASES,
+}
+
+
 class RotHooks(Hooks):
     def call(self, it, callee, args, kwargs, node):
         if isinstance(callee, App) and callee.op == 'attr' and callee.args[1] == 'request':
             it.event('request-to', callee.args[0])
-            if it.choose(2) == 0:
+            k = it.choose(1 + len(FAILURES))
+            if k == 0:
                 return Sym('response')
-            raise Raised(ExcVal('pytezos.rpc.node.RpcError', ('node failure',)))
+            raise Raised(ExcVal(FAILURES[k - 1], ('node failure',)))
         return NotImplemented
 
     def compare(self, it, op, a, b, node):
@@ -50,7 +61,10 @@ def run(repo: Repo, chk: Check) -> None:
     def after(it, o):
         it.event('final-index', o.fields.get('_next_i'))
 
-    res = Interp(repo, RotHooks(), max_depth=1).run_method(fi, make, after)
+    it0 = Interp(repo, RotHooks(), max_depth=1)
+    it0.external_exc_bases = dict(EXC_BASES)
+    it0.loop_unroll = 3  # a re-sending loop is established by its second request; nothing is learnt from following it further
+    res = it0.run_method(fi, make, after)
     want_idx = vrepr(App('op:Mod', App('op:Add', Sym('i'), 1), App('len', Sym('nodes'))))
     want_node = vrepr(App('getitem', Sym('nodes'), Sym('i')))
     sent = 0
@@ -60,20 +74,22 @@ def run(repo: Repo, chk: Check) -> None:
         if not reqs:
             continue
         sent += 1
-        kind = 'raising node' if p.outcome == 'raise' else 'successful node'
+        kind = f'node raising {p.value.cls.rsplit(".", 1)[-1]}' if p.outcome == 'raise' else 'successful node' if p.outcome == 'return' else 'a loop that keeps sending'
         chk.ob('R-PATH', fi.qualname, len(reqs) == 1 and vrepr(reqs[0][1]) == want_node, f'{kind}: request goes to nodes[i]', fi.loc,
                {'target': [vrepr(r[1]) for r in reqs]}, what='the request is not sent to nodes[i] for the pre-advance index')
         chk.ob('R-PATH', fi.qualname, bool(fin) and vrepr(fin[-1][1]) == want_idx, f'{kind}: index advanced to (i+1) % n', fi.loc,
                {'final_index': vrepr(fin[-1][1]) if fin else None, 'outcome': p.outcome},
                what=f'after a request to a {kind} the rotation index is {vrepr(fin[-1][1]) if fin else None}, not (i + 1) % len(nodes): '
                     'a failing node is retried by every later request')
+        if p.outcome not in ('return', 'raise'):
+            continue
         if p.outcome == 'return':
             chk.ob('R-PATH', fi.qualname, vrepr(p.value) == '$response', 'returns the node response', fi.loc, {'value': vrepr(p.value)},
                    what='the node response is not returned')
         else:
-            chk.ob('R-PATH', fi.qualname, p.value.cls.endswith('RpcError'), 'propagates the node error', fi.loc, {'exc': p.value.cls},
+            chk.ob('R-PATH', fi.qualname, p.value.cls in FAILURES, 'propagates the node error', fi.loc, {'exc': p.value.cls},
                    what='the node error is swallowed or replaced')
-    chk.minimum('paths that send a request', sent, 2)
+    chk.minimum('paths that send a request', sent, 1 + len(FAILURES))
 
     # CFG must-pass-through
     chk.set_clause('C28.2')
